@@ -114,7 +114,7 @@ static vector<SInv> structure(const Plan &p) {
         else if (op.k == "FILE") {
             if (inv.empty()) inv.push_back(SInv());
             SFile f; f.chunks = op.chunks; f.ff_kind = op.ff_kind; f.ff_errno = op.ff_errno; f.ff_at = op.ff_at; f.ff_transient = op.ff_transient;
-            if (inv.back().files.size() < 6) inv.back().files.push_back(f);
+            if (inv.back().files.size() < 400) inv.back().files.push_back(f);
         } else {
             if (inv.empty()) inv.push_back(SInv());
             if (inv.back().files.empty()) inv.back().files.push_back(SFile());
@@ -600,10 +600,16 @@ static Plan gen_plan(const string &cfg, uint64_t seed, long long index) {
         }
         p.ops.push_back(inv);
         int nf = 1 + (int)sim_below(&w, 3);
+        bool many = sim_below(&w, 30) == 0;
+        if (many) {     // boundary values on the NUMBER of file operands (argv handling, per-file state, descriptors)
+            static const int NF[] = { 15, 16, 17, 31, 32, 33, 63, 64, 65, 66, 100, 127, 128, 129, 255, 256, 257 };
+            nf = NF[sim_below(&w, 17)];
+        }
         for (int fi = 0; fi < nf; fi++) {
             Op fo; fo.k = "FILE";
             int nl; unsigned lc = (unsigned)sim_below(&w, 100);
             if (lc < 8) nl = 0; else if (lc < 50) nl = 1 + (int)sim_below(&w, 5); else nl = 1 + (int)sim_below(&w, 40);
+            if (many) nl = (int)sim_below(&w, 3);
             vector<Op> lines;
             for (int l = 0; l < nl; l++) { Op lo = gen_line(w, longw); if (crlf_bias == 1) lo.t = 1; else if (crlf_bias == 2 && sim_below(&w, 2)) lo.t = 1; lines.push_back(lo); }
             if (!lines.empty() && sim_below(&w, 100) < 30) lines.back().t = 2;    // no final newline
